@@ -88,7 +88,19 @@ class Runtime(object):
         self.events = []            # (thread is the dispatching thread?, event)
         self.main_thread = threading.current_thread()
         self.config = config if config is not None else C.Config(version=case["ver"], use_jsonclass=case.get("jsonclass", True))
-        self.disp = SimpleJSONRPCDispatcher(config=self.config)
+        # the dispatcher may be hosted by any of the library's server classes (none is ever bound to a port here)
+        host = case.get("host") or "dispatcher"
+        if host == "dispatcher":
+            self.disp = SimpleJSONRPCDispatcher(config=self.config)
+        else:
+            import jsonrpclib.SimpleJSONRPCServer as SM
+            if host == "cgi":
+                self.disp = SM.CGIJSONRPCRequestHandler(config=self.config)
+            elif host == "pooled":
+                self.disp = SM.PooledJSONRPCServer(("127.0.0.1", 0), logRequests=False, bind_and_activate=False, config=self.config,
+                                                   thread_pool=_NoRequestPool())
+            else:
+                self.disp = SM.SimpleJSONRPCServer(("127.0.0.1", 0), logRequests=False, bind_and_activate=False, config=self.config)
         self.fns = [self._make(i, d) for i, d in enumerate(case["table"])]
         for name, c in case.get("funcs", {}).items():
             self.disp.register_function(self.fns[c], name)
@@ -196,6 +208,18 @@ class Runtime(object):
         if self.pool is not None:
             self.pool.stop()
             self.pool = None
+        if hasattr(self.disp, "server_close"):
+            self.disp.server_close()
+
+
+class _NoRequestPool(object):
+    """stands for the request pool of a PooledJSONRPCServer that never serves a connection"""
+
+    def enqueue(self, *a, **k):
+        raise AssertionError("no connection is served in this harness")
+
+    def stop(self):
+        pass
 
 
 class _PoolRecorder(object):
